@@ -445,6 +445,9 @@ func (p *parser) parseForExpression() ast.Expression {
 	}
 
 	ln := p.curToken.LineNumber
+	// break/continue are accepted inside this loop's body; restore the
+	// enclosing loop's state on every way out
+	defer func(outer bool) { p.inForBlock = outer }(p.inForBlock)
 	p.inForBlock = true
 	s := []string{}
 
@@ -495,8 +498,6 @@ func (p *parser) parseForExpression() ast.Expression {
 	if p.curTokenIs(token.RBRACE) {
 		p.nextToken()
 	}
-
-	p.inForBlock = false
 
 	return expression
 }
@@ -604,6 +605,8 @@ func (p *parser) parseFunctionLiteral() ast.Expression {
 	}
 
 	lit.Parameters = p.parseFunctionParameters()
+	// a function body is not part of the enclosing loop
+	defer func(outer bool) { p.inForBlock = outer }(p.inForBlock)
 	p.inForBlock = false
 
 	if !p.expectPeek(token.LBRACE) {
